@@ -152,9 +152,19 @@ func genTCPCase(r *rand.Rand, idx int, soft int) (*streamSpec, []tcpWrite, int) 
 	return sp, ws, 0
 }
 
-func tcpChild(c *vkit.Ctx) {
-	cfg := c.Arg("cfg")
-	n, _ := strconv.Atoi(c.Arg("n"))
+// tcpEnv is one listener with its recording receiver, created after the defs variables were scaled.
+type tcpEnv struct {
+	cfg      string
+	soft     int
+	bufLen   int
+	interval time.Duration
+	rec      *recorder
+	addr     string
+	stop     *channels.SignalAwaitable
+	lsnr     base.LogListener
+}
+
+func newTCPEnv(cfg string) (*tcpEnv, error) {
 	// scale BEFORE the listener exists; these are plain package variables read by every connection goroutine
 	defs.InputFlushInterval /= tcpScale
 	defs.IntermediateChannelTimeout /= tcpScale
@@ -163,20 +173,30 @@ func tcpChild(c *vkit.Ctx) {
 		defs.InputLogMaxRecordBytes = defs.InputLogMaxMessageBytes + 256
 		defs.ListenerLineBufferSize = defs.InputLogMaxRecordBytes * 4
 	}
-	soft := defs.InputLogMaxRecordBytes
-	bufLen := defs.ListenerLineBufferSize
-	if bufLen < 3*soft {
-		bufLen = 3 * soft
+	e := &tcpEnv{cfg: cfg, soft: defs.InputLogMaxRecordBytes, bufLen: defs.ListenerLineBufferSize, interval: defs.InputFlushInterval}
+	if e.bufLen < 3*e.soft {
+		e.bufLen = 3 * e.soft
 	}
-	interval := defs.InputFlushInterval
-	rec := &recorder{sinks: map[string]*recSink{}}
-	stop := channels.NewSignalAwaitable()
-	lsnr, addr, err := tcplistener.NewTCPLineListener(logger.Root(), "127.0.0.1:0", syslogprotocol.TestRecordStart, rec, stop)
+	e.rec = &recorder{sinks: map[string]*recSink{}}
+	e.stop = channels.NewSignalAwaitable()
+	lsnr, addr, err := tcplistener.NewTCPLineListener(logger.Root(), "127.0.0.1:0", syslogprotocol.TestRecordStart, e.rec, e.stop)
+	if err != nil {
+		return nil, err
+	}
+	e.lsnr, e.addr = lsnr, addr
+	lsnr.Start()
+	return e, nil
+}
+
+func tcpChild(c *vkit.Ctx) {
+	cfg := c.Arg("cfg")
+	n, _ := strconv.Atoi(c.Arg("n"))
+	env, err := newTCPEnv(cfg)
 	if err != nil {
 		c.Inconclusive("tcp stage: cannot listen: " + err.Error())
 		c.Finish()
 	}
-	lsnr.Start()
+	stop, lsnr := env.stop, env.lsnr
 
 	par := 8
 	jobs := make(chan int)
@@ -190,7 +210,9 @@ func tcpChild(c *vkit.Ctx) {
 				if atomic.LoadInt32(&tcpExpired) >= 3 {
 					continue
 				}
-				tcpCase(c, w, rec, addr, cfg, i, soft, bufLen, interval)
+				r := c.Rand("tcp-"+cfg, i)
+				sp, writes, _ := genTCPCase(r, i, env.soft)
+				tcpCase(c, w, env, i, sp, writes)
 				w.flush()
 			}
 		}()
@@ -203,6 +225,10 @@ func tcpChild(c *vkit.Ctx) {
 	if atomic.LoadInt32(&tcpExpired) >= 3 {
 		c.Inconclusive("tcp-" + cfg + ": three connections were never finished by the listener; the remaining cases were skipped")
 	}
+	for kind, first := range skipFirst {
+		c.Inconclusive(fmt.Sprintf("tcp-%s: %d cases ended early (%s error on the client side) and were not judged; first: %s",
+			cfg, c.EventCount("tcp_cases_not_judged_"+kind), kind, first))
+	}
 	stop.Signal()
 	if !lsnr.Stopped().Wait(30 * time.Second) {
 		c.Inconclusive("tcp stage: listener did not stop within 30 s after every connection was closed")
@@ -213,17 +239,31 @@ func tcpChild(c *vkit.Ctx) {
 
 const tcpWatchdog = 30 * time.Second
 
+var (
+	skipMu    sync.Mutex
+	skipFirst = map[string]string{}
+)
+
+// noteSkip counts a case that could not be run to its end; one INCONCLUSIVE line per kind is printed at the end.
+func noteSkip(w *worker, kind, what string) {
+	w.events["tcp_cases_not_judged_"+kind]++
+	skipMu.Lock()
+	if _, ok := skipFirst[kind]; !ok {
+		skipFirst[kind] = what
+	}
+	skipMu.Unlock()
+}
+
 var tcpExpired int32 // watchdog expiries; after three the rest of the stage is given up as inconclusive
 
-func tcpCase(c *vkit.Ctx, w *worker, rec *recorder, addr, cfg string, i, soft, bufLen int, interval time.Duration) {
-	r := c.Rand("tcp-"+cfg, i)
-	sp, writes, _ := genTCPCase(r, i, soft)
+func tcpCase(c *vkit.Ctx, w *worker, env *tcpEnv, i int, sp *streamSpec, writes []tcpWrite) {
+	rec, addr, cfg, soft, bufLen, interval := env.rec, env.addr, env.cfg, env.soft, env.bufLen, env.interval
 	sp.soft, sp.minBuf = soft, bufLen
 	a := analyse(sp.ht, sp.data)
 	c.LogCase(fmt.Sprintf("tcp-%s/%d stream=%s", cfg, i, hex.EncodeToString(sp.data[:minInt(len(sp.data), 400)])))
 	conn, err := net.Dial("tcp", addr)
 	if err != nil {
-		c.Inconclusive(fmt.Sprintf("tcp case %d: dial: %v", i, err))
+		noteSkip(w, "dial", fmt.Sprintf("tcp-%s case %d: dial: %v", cfg, i, err))
 		return
 	}
 	if tc, ok := conn.(*net.TCPConn); ok {
@@ -235,8 +275,9 @@ func tcpCase(c *vkit.Ctx, w *worker, rec *recorder, addr, cfg string, i, soft, b
 	prev := 0
 	for _, wr := range writes {
 		if _, err := conn.Write(sp.data[prev:wr.end]); err != nil {
+			// the listener never closes a connection on its own while it is healthy; the case cannot be judged
 			_ = conn.Close()
-			c.Inconclusive(fmt.Sprintf("tcp case %d: write: %v", i, err))
+			noteSkip(w, "write", fmt.Sprintf("tcp-%s case %d: write after %d of %d bytes: %v", cfg, i, prev, len(sp.data), err))
 			return
 		}
 		prev = wr.end
